@@ -35,6 +35,10 @@ type Script struct {
 	Codec    string `json:"codec"`    // websocket only: json | msgpack
 	Internal bool   `json:"internal"` // gRPC only: StreamServerCore.Internal
 	Ops      []Op   `json:"ops"`
+	// RetIdleMs (TestC14WSDeadline only): the handler stays idle this long right before it
+	// returns - longer than the server's per-write deadline, which must not matter for the
+	// terminal result the client gets.
+	RetIdleMs int `json:"ret_idle_ms,omitempty"`
 }
 
 // maxSleepUs bounds generated and replayed sleeps; VERIF_C14_MAXSLEEP_US raises it for
